@@ -11,7 +11,7 @@ func init() {
 	register(&PropDef{
 		ID:    "C10",
 		Pkgs:  []string{tr, "grpc", "internal/status"},
-		Claim: "Decides the structural part: the server writes grpc-status = Itoa(code), grpc-message = encodeGrpcMessage(message) and, only when details exist and marshal succeeded, the base64 details header, in both the normal and the early-abort writer; the header names it writes are names the client's header processing recognises; the client builds the final status from the parsed grpc-status, the decoded grpc-message and the details header of the same frame; a status converts to a nil error exactly when its code is OK; after the handler returns, every path writes a status: the handler's (via status.FromError / FromContextError) when it returned an error, OK otherwise.",
+		Claim: "Decides the structural part: the server writes grpc-status = Itoa(code), grpc-message = encodeGrpcMessage(message) and, only when details exist and marshal succeeded, the base64 details header, in both the normal and the early-abort writer; the header names it writes are names the client's header processing recognises; the client builds the final status from the parsed grpc-status, the decoded grpc-message and the details header of the same frame; a status converts to a nil error exactly when its code is OK; after the handler returns, every path writes a status: the handler's (via status.FromError / FromContextError) when it returned an error, OK otherwise; the percent-coding of the message obeys the structural obligations of C08 (consumes input rune by rune, escapes exactly the non-printable bytes, never panics).",
 		NotDecided:  []string{"value equality of message and details for all inputs (value property; the percent-encoding itself is C08)"},
 		Assumptions: []string{"proto.Marshal/Unmarshal round-trip the status proto"},
 		Technique:   "static analysis: composite-literal pairing, value-origin of header values and constructor arguments, constant-set agreement between writer and reader, dominating guards, must-pass-through",
@@ -20,6 +20,8 @@ func init() {
 }
 
 func c10(c *Ctx) {
+	// the grpc-message coding (C08's obligations) is part of "the message reaches the client unchanged"
+	c08(c)
 	c.Ob("status-encode", "R9", "sibling x2 (writeStatus, writeEarlyAbort): grpc-status = strconv.Itoa(int(st.Code())), grpc-message = encodeGrpcMessage(st.Message()), details header = encodeBinHeader(proto.Marshal(RawStatusProto(st))) only when details exist and marshalling succeeded", 6, func() {
 		for _, pr := range []struct{ fn, param string }{{"http2Server.writeStatus", "st"}, {"http2Server.writeEarlyAbort", "stat"}} {
 			f := c.fn(tr, pr.fn)
